@@ -95,6 +95,38 @@ DETECT.update({
     "C19h": ("C19", "execution-count-vs-statement:sync / execution-counts-differ:sync-vs-*", "needed strengthening: callers that read a result twice, children returning None"),
 })
 
+DETECT.update({
+    # round 5 (ids ...i / ...j)
+    "C01i": ("C02", "status-history:two-claims-no-release:mem / not-linearizable:mem", "the third independent rediscovery of the in-memory read hoisted out of the per-invocation lock (C01b, C01f): an interleaving defect, invisible to C01's sequential quantifier, reported by C02"),
+    "C01j": ("C01", "wrongly-accepted:no-edge / backends-disagree", ""),
+    "C03i": ("C04", "left-in-recovery-status:lost-race:{pending,running}:*", "no process dies in it: a recovery run that loses a race leaves invocations in *_RECOVERY; that is C04's clause and C04 reports it (C03 stays silent: its quantifier is over crash points)"),
+    "C03j": ("C03", "stranded:claim/ccretry:at=RETRY/q0:after=end-of-role:crash=none (also C06 blocked-or-left-stranded:RETRY)", "needed strengthening: scenario claim/ccretry (the blocked invocation is one awaiting a retry)"),
+    "C05i": ("C05", "final-status-published-before-exception-stored / failed-without-readable-exception:processes", ""),
+    "C05j": ("C05", "success-with-wrong-result:* (also C15 store:different-content-same-reference)", "needed strengthening: result families of equal length that differ only in the middle, in every size class up to 300 kB; every finished invocation is read again after later ones"),
+    "C06i": ("C06", "blocked-invocation-handed-out:*", ""),
+    "C06j": ("C06", "blocked-invocation-handed-out:direct", ""),
+    "C07i": ("C07", "expected-reuse:{KEYS,TASK}:new-id (mem)", "needed strengthening: requests that the lifecycle rejects on a still REGISTERED invocation, inside the histories"),
+    "C07j": ("C07", "expected-reuse:{ARGUMENTS,KEYS}:new-id (sqlite)", "needed strengthening: argument values of a few hundred characters (inline, but long for an index column)"),
+    "C08i": ("C08", "sched:dequeued-twice / proc:dequeued-twice", ""),
+    "C08j": ("C08", "sched:lost / sched:retrieve-raised", ""),
+    "C10i": ("C10", "history:filed-under-other-invocation:*", ""),
+    "C10j": ("C10", "history:missing-entry:*:mem", ""),
+    "C12i": ("C12", "two-authorised:*:with-execution-history / margin-not-respected:with-execution-history", "needed strengthening: runners with recorded service executions of every length class (none ... longer than the cycle)"),
+    "C12j": ("C12", "multi:two-authorised:own-instances / multi:single-runner-refused", "needed strengthening: every runner asks through its own application instance on a shared SQLite file; joins, leaves and recorded executions in mid-cycle"),
+    "C13i": ("C13", "cron:two-occurrences-for-one-minute:concurrent-polls:never-fired:mem / occurrence-launched-more-than-once:cron", "needed strengthening: two runners polling inside one scheduled minute under explored interleavings, on a never-fired and on a warm store"),
+    "C13j": ("C13", "occurrence-not-launched:event:single:concurrent-loops", "needed strengthening: a third actor that re-registers the task's triggers (another runner starting) while the loops serve a pending occurrence"),
+    "C15i": ("C15", "store:resend-after-mutation:same-reference / second-reference-other-content", "needed strengthening: an object serialized, grown in place and serialized again; read back by another instance"),
+    "C15j": ("C15", "ident:spelling-changes-identity:sibling-* / ident:arguments-not-bound:sibling-*", "needed strengthening: functions made by one factory (one code object, different defaults), called in shuffled order"),
+    "C16i": ("C16", "diverge:return:t_cron_store:value", "the same change as C13i, delivered independently for C16"),
+    "C16j": ("C16", "diverge:return:q_existing:value (also C07 expected-fresh:ARGUMENTS:reused)", "needed strengthening: lookups by two or three serialized arguments on invocations that match in part"),
+    "C17i": ("C17", "bystander-changed:purge:*:sqlite", ""),
+    "C17j": ("C17", "bystander-changed:purge:purge_client_data_store:*", ""),
+    "C18i": ("C18", "replay-differs:{time,uuid,random}", ""),
+    "C18j": ("C18", "workflows-share-values / workflows-share-sub-invocation", "needed strengthening: sub-workflows (a force_new_workflow task started from a workflow) asking for the same kinds of things as their parent"),
+    "C19i": ("C19", "execution-counts-differ:sync-vs-*", "needed strengthening: the same call twice in one group / loop"),
+    "C19j": ("C19", "outcome-differs:sync-vs-* / outcome-vs-statement:*", "needed strengthening: a retriable error class that comes into existence after the process has already stored and read failures"),
+})
+
 for d in sorted(os.listdir(os.path.join(ROOT, "seeded"))):
     p = os.path.join(ROOT, "seeded", d)
     if not os.path.isdir(p) or not os.path.exists(os.path.join(p, "patch.diff")):
